@@ -666,7 +666,7 @@ void HttpMessage::writeFile(const String& path, int begin, int end)
 	int n = 1;
 	file.seek(begin);
 	Long size = file.size();
-	if (begin != end)
+	if (begin != end || begin > 0) // (0, 0) means the whole file; (b, b) is one byte
 		size = end - begin + 1;
 	int bytesSent = 0;
 	//HttpStatus status;
@@ -704,7 +704,7 @@ bool HttpMessage::putFile(const String& path, int begin, int end)
 		Long size = file.size();
 		if (end == 0)
 			end = int(size - 1);
-		if (end <= begin || begin < 0 || end > size)
+		if (end < begin || begin < 0 || end > size) // begin == end is the one-byte range
 		{
 			setHeader("Content-Length", "0");
 			setHeader("Content-Range", String::f("bytes */%lli", size));
